@@ -19,6 +19,7 @@ Stages (each an instance of the same simulation, Lemmas/CompileTree*.lean; 4k li
                     the jump / join entries and schedules the out-of-line roots; the root loop, `rootJump`, the
                     terminator loop (`pushEndInstructions` = `addTerms`)                             — `root_step`, `rootLoop_ok`
   3 bodies          nested expressions `{ … }` (a root of its own, `EndExpression` as default terminator), `{ }`, `^~`
+  4 blocks          a side-effect block after a value, `v [ body ]` (`Rep.side`; `sim_side`, Lemmas/CompileTree19.lean)
 What the theorem assumes beyond `Rep`:
   * `validateParseTree root tree = .ok ()` — `build`'s own check of the parent links, which `Rep` does not mention;
     `validate_ok` (Lemmas/CompileTreeV.lean) proves it from the `Shape` of the tree: in-order intervals with parent
@@ -31,11 +32,13 @@ node over the body), numbered in-order as the parser numbers by token position; 
 comes from a `Printer`. `treeOf_rep` / `treeOf_valid`: it represents the program and passes `build`'s check, so
 `build_refines_compile_treeOf` has no hypothesis about the tree; `stage1_straight_line` / `stage2_branches` /
 `stage3_bodies` are the three stages; where no group is needed `treeOf` is literally the PARSE dump (`$ && 5` below).
-MISSING: that `treeOf p` (or any `Rep` tree) is what `Model.Parser.parse (lex (print p))` returns — there is no printer
-in the development; C02 relates the parser to `RefParse` trees on fragments, and `Rep` is stated over arbitrary node
-arrays so that such a result plugs in as the `hrep` hypothesis. The fragment `InFrag` of `treeOf` asks of the printer
+That the node array `Model.Parser.parse` returns satisfies `Rep` (for the program its reference tree elaborates to) is
+`parse_rep`, Props/C01Source.lean; from tokens and from the source text: Props/C02Numbered.lean, Props/C01Text.lean.
+The fragment `InFrag` of `treeOf` asks of the printer
 that literal text parses back to the literal (`LitRep`) and name text hashes to the symbol.
-Not representable (`Rep` has no constructor), hence outside the tie: side-effect blocks `e [b]`; literal values other than
+Not representable (`Rep` has no constructor), hence outside the tie: side-effect blocks anywhere but directly after a
+literal / `$` / identifier (`[b] v`; `(e) [b]`, `v [b] [c]`: there the builder drops the group content / the first block);
+literal values other than
 unit / true / false / number / text / byte list / symbol; lists with fewer than two items; and, WITHOUT a group node
 around them, a conditional or else-chain as direct left operand of `&&` / `||` or as final arm of an else-chain, a list as
 direct item of a list of the same kind (the parser cannot produce these shapes without parentheses either).
@@ -202,6 +205,23 @@ example : (compile prog3).instrs = #[(.put, some 0), (.emptyApply, none), (.endE
     (.updateValue, none), (.jumpTo, some 1), (.endExpression, none)] ∧ (compile prog3).jumps = #[0, 3] := by
   constructor <;> decide
 
+/-- stage 4, a side-effect block after a value: `5 [6]` (the `SideEffect` node hangs off the `right` of the value node) -/
+def tree4 : Array ParseNode := #[
+  nd .number none none (some 1) "5", nd .sideEffect (some 0) none (some 2) "[", nd .number (some 1) none none "6"]
+def main4 : Expr Float := .sideAfter (int 5) (int 6)
+def prog4 : Program Float := { main := main4, bodies := [(0, main4)] }
+
+theorem rep4 : Rep noFloat tree4 prog4.bodies 0 tree4.size 0 prog4.main :=
+  .side (pn := tree4[0]) (ps := tree4[1]) rfl rfl rfl (.lit (.num rfl (by rfl))) rfl rfl rfl
+    (lit_int 2 tree4 _ 6 _ rfl rfl rfl rfl (by rfl))
+
+example : ∃ d, build noFloat (defaultFuel tree4.size) 0 tree4 BState.empty = .ok (d, 0) ∧
+    d.instrs = (compile prog4).instrs ∧ d.jumps = (compile prog4).jumps ∧ d.consts = (compile prog4).consts :=
+  build_refines_compile noFloat tree4 prog4 0 _ rep4 rfl (by rfl) (by rfl) (by decide)
+
+example : (compile prog4).instrs = #[(.put, some 0), (.startSideEffect, none), (.put, some 1), (.endSideEffect, none),
+    (.endExpression, none)] := by decide
+
 /-! ### `treeOf`: a tree for every program of the fragment, and the tie on it -/
 
 /-- … with `build`'s own check discharged from the shape of the tree (`validate_ok`, Lemmas/CompileTreeV.lean) -/
@@ -217,7 +237,7 @@ theorem build_refines_compile_shape (tree : Array ParseNode) (p : Program F) (ro
 variable (pr : Printer F)
 
 /-- **the tie on `treeOf`** (all stages): for every program in the fragment that `treeOf` renders (`InFrag`: every construct
-but side-effect blocks; lists of at least two items; nesting depth at most `depth`), `build` run on `treeOf p` returns the
+(side-effect blocks after a value only); lists of at least two items; nesting depth at most `depth`), `build` run on `treeOf p` returns the
 entry `0` and the instructions, jump table and constants of `compile p` — no hypothesis about the tree is left -/
 theorem build_refines_compile_treeOf (p : Program F) (depth fuel : Nat) (hfrag : InFrag pr pf p depth)
     (hmain : lookupBody p.bodies 0 = some p.main) (hcomplete : (compileState Prog.empty p).pending = [])
@@ -234,7 +254,7 @@ theorem build_refines_compile_treeOf_wf (p : Program F) (depth : Nat) (hwf : C01
     (by simp only [defaultFuel]; omega)
 
 /- `stageOf`: the stage an expression belongs to: 1 straight line, 2 conditionals / logic / else-chains, 3 nested
-expressions and `^~` (4: side-effect blocks, not covered) -/
+expressions and `^~`, 4 side-effect blocks after a value -/
 mutual
 def stageOf : Expr F → Nat
   | .lit _ | .input | .ident _ => 1
@@ -247,7 +267,7 @@ def stageOf : Expr F → Nat
   | .chain arms none => max 2 (stageArms arms)
   | .nested _ | .emptyNested => 3
   | .reapply x => max 3 (stageOf x)
-  | .sideAfter _ _ => 4
+  | .sideAfter x b => max 4 (max (stageOf x) (stageOf b))
 def stageItems : List (Expr F) → Nat
   | [] => 0
   | x :: xs => max (stageOf x) (stageItems xs)
